@@ -192,19 +192,19 @@ func (r *Result) Finish() int {
 		"explanation": r.Explanation + " Decides structural necessary conditions only; not covered: " + strings.Join(r.NotCovered, "; "),
 		"obligations": len(r.Obligations), "discharged": discharged,
 		"evaluations": len(r.Obligations), "distinct_nontrivial": len(distinct),
-		"rule":                       "one obligation per rule instance (rule kind × resolved subject × role); distinct = distinct (kind,subject) pairs; every instance inspects resolved SSA/type facts of /repo's current tree",
-		"rule_instances_by_kind":     byKind,
-		"packages_loaded":            r.Packages,
-		"functions_in_program":       r.Functions,
-		"functions_analysed":         len(touched),
-		"functions_analysed_names":   touched,
-		"call_sites_examined":        r.CallSites,
-		"known_findings_reported":    kfKeys,
-		"undecided":                  len(und),
-		"samples":                    samples,
-		"checker_cmd":                "/verif/bin/osmolint -property " + r.Property + " -tier " + r.Tier,
-		"trusted_base":               []string{"go/types", "go/ssa (x/tools v0.29.0)", "rounding classification table (checked against osmomath bodies by C12)", "math/big and cosmossdk.io/math method semantics", "Cosmos SDK transaction atomicity (an error exit reverts the message's store branch)"},
-		"exhaustive":                 false,
+		"rule":                     "one obligation per rule instance (rule kind × resolved subject × role); distinct = distinct (kind,subject) pairs; every instance inspects resolved SSA/type facts of /repo's current tree",
+		"rule_instances_by_kind":   byKind,
+		"packages_loaded":          r.Packages,
+		"functions_in_program":     r.Functions,
+		"functions_analysed":       len(touched),
+		"functions_analysed_names": touched,
+		"call_sites_examined":      r.CallSites,
+		"known_findings_reported":  kfKeys,
+		"undecided":                len(und),
+		"samples":                  samples,
+		"checker_cmd":              "/verif/bin/osmolint -property " + r.Property + " -tier " + r.Tier,
+		"trusted_base":             []string{"go/types", "go/ssa (x/tools v0.29.0)", "rounding classification table (checked against osmomath bodies by C12)", "math/big and cosmossdk.io/math method semantics", "Cosmos SDK transaction atomicity (an error exit reverts the message's store branch)"},
+		"exhaustive":               false,
 	}
 	for k, v := range r.Extra {
 		cov[k] = v
